@@ -16,7 +16,7 @@ TECH = {
     "C06": "Hypothesis PBT vs reference Helmert formula (float + Fraction), inverse round trip, covariance propagation reference",
     "C07": "Hypothesis PBT vs reference formula with rate-advanced parameters; complete enumeration of shipped sets",
     "C08": "complete enumeration of the arc-second lattice + Hypothesis PBT against exact rational angle semantics",
-    "C09": "Hypothesis stateful (RuleBasedStateMachine) histories with snapshot / write-barrier / memo invariants and threaded re-runs",
+    "C09": "Hypothesis stateful (RuleBasedStateMachine) histories with snapshot / write-barrier / memo / fresh-process invariants, threaded re-runs, and harness-owned thread schedules (sys.monitoring line events: alternation and pre-emption-bounded enumeration)",
     "C10": "Hypothesis PBT vs analytic derivative of the exact-TM oracle; forward/inverse differential",
     "C11": "complete enumeration of the catalogue (names, pairs, 384 ITRF triples) + Hypothesis PBT of iers2trans",
     "C12": "Hypothesis PBT over recursive expression trees vs float evaluation with propagated tolerance",
@@ -25,7 +25,7 @@ TECH = {
     "C15": "Hypothesis PBT + stateful conversion chains, differential vs functional API",
     "C16": "Hypothesis PBT of algebraic invariants (orthonormality, eigenvalues) + complete enumeration of the t-table vs scipy",
     "C17": "Hypothesis PBT over generated NTv2 files with analytic polynomial fields (file-format fuzzing by construction)",
-    "C18": "Hypothesis PBT over generated SINEX files vs independent writer/strict parser, substituted clock",
+    "C18": "Hypothesis PBT over generated SINEX files vs independent writer/strict parser, substituted clock; model-based edit sequences on the library's own output",
     "C19": "Hypothesis PBT: inverse round trips, Pythagoras, proportionality, differential Ciddor vs closed form, complex-step dispersion identity",
     "C20": "Hypothesis PBT: differential of Flask test-client responses vs direct library calls",
 }
